@@ -30,6 +30,7 @@ type tSigner struct {
 }
 
 func (s *tSigner) Algorithm() cose.Algorithm { return s.alg }
+
 // nested library call made by re-entrant spies ("R" mode): a realistic signer may itself verify
 // a COSE_Sign1 token before it signs; the bytes it was handed must not change under it.
 func nestedUse() {
